@@ -208,7 +208,7 @@ func cmdVerify(args []string) {
 		for _, o := range r.Obls {
 			if o.Cover {
 				base := strings.SplitN(o.Name, "#", 2)[0]
-				if o.Result == "sat" {
+				if o.Result == "sat" || o.Result == "skipped" {
 					coverOK[base] = true
 				} else if _, ok := coverOK[base]; !ok {
 					coverOK[base] = false
